@@ -195,7 +195,7 @@ def gen_pomdp(rng, abs_kind=None, smax=4, amax=3, omax=3, smin=1, amin=1, omin=1
         st = lambda x: [st(y) for y in x] if isinstance(x, list) else str(x)
         return {"nS": nS, "nA": nA, "nO": nO, "T": st(T), "Rw": st(Rw), "Ob": st(Ob),
                 "absorbing": absorbing, "s0": st(s0), "gamma": gamma, "abs_kind": abs_kind,
-                "explicit_lists": bool(unreach), "gamma_int": bool(extremes and gamma == "0" and rng.random() < .5),
+                "explicit_lists": bool(unreach), "extremes": bool(extremes), "gamma_int": bool(extremes and gamma == "0" and rng.random() < .5),
                 "labels": gen_labels(rng, nS, nA, nO) if labels else None,
                 "unreachable": sorted(set(range(nS)) - _reachable(nS, nA, T, absorbing, s0))}
     raise RuntimeError("gen_pomdp: no case")
@@ -548,6 +548,8 @@ def run(ctx):
                 tol, vtol, M = (F(1, 10 ** 3) if f32 else F(1, 10 ** 9)) * sc, (F(1, 10 ** 3) if f32 else F(1, 10 ** 9)) * sc, sc
                 forms["%s/%s" % (case.get("om_form", "4d"), case.get("eval_dtype", "float64"))] = forms.get("%s/%s" % (case.get("om_form", "4d"), case.get("eval_dtype", "float64")), 0) + 1
                 k = KSTEPS[pc["gamma"]]
+                if gpc.get("extremes"):
+                    k = min(k, 6)     # 2^-30 probabilities: denominators of the exact k-step table grow ~60 bits per step
                 terms.append("ev %s %s %s %s %s %s %s %s" % (pt, ft, qmat(evr["V"]), q(evr["expected_value"]), q(tol), q(vtol), q(M), nat(k)))
                 meta.append(("ev", i, {"tol": tol, "M": M, "k": k}))
             if isinstance(res.get("hist"), dict) and "error" in res["hist"]:
